@@ -78,6 +78,7 @@ class Impl:
         self.graphs: list = []
         self.zombies: set[int] = set()
         self.funcs: dict[int, object] = {}
+        self.node_sub: dict[int, int] = {}      # node id -> graph id held by its graph attribute
         self.use_functions = use_functions
         self._ids: dict[int, tuple[str, int]] = {}
 
@@ -157,6 +158,8 @@ class Impl:
             gobj = None if g is None else self._g(g, extra.get("via_fn", False))
             node = ir.Node("", "Op", inputs, attrs, graph=gobj, name=nm, **kw)
             self._reg("n", node)
+            if extra.get("sub") is not None:
+                self.node_sub[n] = extra["sub"]
             if ospec[0] == "OFresh":
                 for o in node.outputs:
                     self._reg("v", o)
@@ -195,6 +198,15 @@ class Impl:
             _, g, ns, safe, extra = op
             arg = N[ns[0]] if (len(ns) == 1 and extra.get("single")) else [N[x] for x in ns]
             self._g(g, extra.get("via_fn")).remove(arg, safe=safe)
+        elif k == "GSort":
+            # op = ["GSort", g, outcome]; the outcome (None = cycle found, else [[gid, [node ids in the new order]], ...]
+            # for every graph of the nest that has nodes) is filled in from what the implementation did
+            op[2] = None
+            from onnx_ir import traversal
+            gobj = self._g(op[1], False)
+            nest = list(dict.fromkeys(self.h(n.graph, "g") for n in traversal.RecursiveGraphIterator(gobj)))
+            gobj.sort()
+            op[2] = [[gi, [self.h(n, "n") for n in G[gi]]] for gi in sorted(x for x in nest if x is not None)]
         elif k == "NReplaceInput":
             _, n, i, x = op
             N[n].replace_input_with(i, None if x is None else V[x])
@@ -659,6 +671,23 @@ class Gen:
     def _pick(self, xs, default=None):
         return self.rng.choice(xs) if xs else default
 
+    def _reach(self, s: int) -> set[int]:
+        """graphs reachable from graph s through the graph attributes of the nodes they contain (s included)"""
+        seen, todo = {s}, [s]
+        while todo:
+            cur = todo.pop()
+            for n in self.im.graphs[cur]:
+                sub = self.im.node_sub.get(self.im.h(n, "n"))
+                if sub is not None and sub not in seen:
+                    seen.add(sub)
+                    todo.append(sub)
+        return seen
+
+    def _can_add(self, n: int, g: int) -> bool:
+        """adding node n to graph g must not nest a graph inside itself (traversal would not terminate)"""
+        sub = self.im.node_sub.get(n)
+        return sub is None or g not in self._reach(sub)
+
     def _free_value(self):
         """a value that no graph owns and no node produces"""
         return self._vals(lambda v: v.graph is None and v.producer() is None)
@@ -749,7 +778,7 @@ class Gen:
         site = rng.random() < self.site_rate        # aim at a known defect site
         malformed = rng.random() < 0.3
         kinds = ["NewValue"] * 3 + ["NewNode"] * 6 + ["GraphNew"] * 2 + ["GAppend"] * 4 + ["GExtend"] * 3 + \
-                ["GInsertAfter"] * 2 + ["GInsertBefore"] * 2 + ["NAppend", "NPrepend"] + ["GRemove"] * 4 + \
+                ["GInsertAfter"] * 2 + ["GInsertBefore"] * 2 + ["NAppend", "NPrepend"] + ["GRemove"] * 4 + ["GSort"] * 2 + \
                 ["NReplaceInput"] * 6 + ["NResizeInputs"] * 2 + ["NResizeOutputs"] * 3 + ["VReplaceAllUses"] * 4 + \
                 ["VSetName"] * 4 + ["IOAppend"] * 5 + ["IOExtend"] * 3 + ["IOInsert"] * 3 + ["IOPop"] * 3 + \
                 ["IORemove"] * 2 + ["IOClear"] + ["IOSetItem"] * 3 + ["IODelItem"] + ["IOIMul"] + ["IOReverse"] + ["IOSetSlice"] * 3 + ["IODelSlice"] * 2 + \
@@ -771,7 +800,7 @@ class Gen:
             extra = {}
             if g is not None:
                 extra.update(self._extra(g))
-            subs = [x for x in graphs if x not in self.sub_used and x != g]
+            subs = [x for x in graphs if x not in self.sub_used and x != g and (g is None or g not in self._reach(x))]
             if subs and rng.random() < 0.2:
                 extra["sub"] = rng.choice(subs)
                 self.sub_used.add(extra["sub"])
@@ -808,12 +837,12 @@ class Gen:
         g = rng.choice(graphs)
         G = im.graphs[g]
         if k == "GAppend":
-            ok = self._nodes(lambda n: n.graph is None or n.graph is G)
+            ok = [n for n in self._nodes(lambda n: n.graph is None or n.graph is G) if self._can_add(n, g)]
             bad = self._nodes(lambda n: n.graph is not None and n.graph is not G)
             n = self._pick(bad if (malformed and bad) else ok)
             return None if n is None else ["GAppend", g, n, self._extra(g)]
         if k in ("GExtend", "GInsertAfter", "GInsertBefore", "NAppend", "NPrepend"):
-            ok = self._nodes(lambda n: n.graph is None or n.graph is G)
+            ok = [n for n in self._nodes(lambda n: n.graph is None or n.graph is G) if self._can_add(n, g)]
             bad = self._nodes(lambda n: n.graph is not None and n.graph is not G)
             if not ok:
                 return None
@@ -821,7 +850,7 @@ class Gen:
             if rng.random() < 0.7:
                 ns = list(dict.fromkeys(ns))
             refs = list(im.h(x, "n") for x in G)
-            lone = self._nodes(lambda n: n.graph is None)
+            lone = [n for n in self._nodes(lambda n: n.graph is None) if self._can_add(n, g)]
             if malformed and k != "GExtend" and rng.random() < 0.5:
                 # reference node that is not in this graph + acceptable (preferably still unnamed, graph-less) new nodes
                 outside = self._nodes(lambda n: n.graph is not G)
@@ -831,6 +860,11 @@ class Gen:
                     if cand:
                         new = list(dict.fromkeys(rng.choice(cand) for _ in range(rng.choice([1, 2, 3]))))
                         if k in ("NAppend", "NPrepend"):
+                            gr = im.h(N[ref].graph, "g")         # node.append inserts into the reference node's own graph
+                            if gr is not None:
+                                new = [n for n in new if self._can_add(n, gr) and N[n].graph is None]
+                                if not new:
+                                    return None
                             return [k, ref, new]
                         return [k, g, ref, new, {}]
             if site and bad:
@@ -855,6 +889,8 @@ class Gen:
             if len(ns) == 1 and rng.random() < 0.5:
                 extra["single"] = True
             return [k, g, ref, ns, extra]
+        if k == "GSort":
+            return ["GSort", g, "?"]
         if k == "GRemove":
             inside = self._nodes(lambda n: n.graph is G)
             outside = self._nodes(lambda n: n.graph is not G)
@@ -1122,6 +1158,9 @@ def op_term(op: list) -> str:  # noqa: C901, PLR0911, PLR0912
         return f"{k} {cnat(op[1])} {_vl(op[2])}"
     if k == "GRemove":
         return f"GRemove {cnat(op[1])} {_vl(op[2])} {common.cbool(op[3])}"
+    if k == "GSort":
+        out = "None" if op[2] is None else "(Some " + clist(f"({cnat(g)}, {_vl(ns)})" for g, ns in op[2]) + ")"
+        return f"GSort {cnat(op[1])} {out}"
     if k == "NReplaceInput":
         return f"NReplaceInput {cnat(op[1])} {cZ(op[2])} {copt(op[3], cnat)}"
     if k == "NResizeInputs":
@@ -1383,7 +1422,7 @@ def run_check(ck, which: str) -> None:  # noqa: C901, PLR0912, PLR0915
                            "C06: steps on which a call raises" if which == "c01" else
                            "steps on which a public editing call raises (rejected edit)")
     ck.coverage["ops_in_model"] = sorted({"NewValue", "NewNode", "GraphNew", "GAppend", "GExtend", "GInsertAfter", "GInsertBefore",
-                                          "NAppend", "NPrepend", "GRemove", "NReplaceInput", "NResizeInputs", "NResizeOutputs",
+                                          "NAppend", "NPrepend", "GRemove", "GSort (outcome supplied by the implementation, installation modelled)", "NReplaceInput", "NResizeInputs", "NResizeOutputs",
                                           "VReplaceAllUses", "VSetName", "IOAppend", "IOExtend", "IOInsert", "IOPop", "IORemove",
                                           "IOClear", "IOSetItem", "IODelItem", "IOSetSlice (plain)", "IODelSlice (plain)", "IOIMul", "IOReverse", "InitSetItem", "InitDelItem",
                                           "InitPop", "InitAdd", "InitClear", "InitPopItem", "InitUpdate", "InitSetDefault", "InitIOr", "Function forwards (routed through Function objects)"})
@@ -1391,7 +1430,7 @@ def run_check(ck, which: str) -> None:  # noqa: C901, PLR0912, PLR0915
                                          "graphs; rename_values / replace_all_uses_with spanning >= 2 graphs with the invalid "
                                          "element in a later graph")
     ck.coverage["ops_oracle_only"] = ["IOSetSlice/IODelSlice with step or negative bounds", "IOSort", "VSetName to a non-str / unencodable name", "Value.merge_shapes", "InitIOr written on the attribute",
-                                      "GSort", "GRegisterInitializer", "ConvReplaceAllUses", "ConvRenameValues",
+                                      "GRegisterInitializer", "ConvReplaceAllUses", "ConvRenameValues",
                                       "ConvReplaceNodesAndValues"]
     ck.prove()
     rng = ck.rng
@@ -1420,6 +1459,9 @@ def run_check(ck, which: str) -> None:  # noqa: C901, PLR0912, PLR0915
     for _ in range(120 if not ck.thorough else 1500):
         hists.append(run_history(gen_rejections(rng))["steps"])
         tags.append("rejection-shapes")
+    for _ in range(60 if not ck.thorough else 800):
+        hists.append(run_history(gen_nested_sort(rng))["steps"])          # Graph.sort on nests with one cyclic scope
+        tags.append("nested-sort")
     ex_len = 2 if not ck.thorough else 3
     n_ex = 0
     for ops in all_container_histories(ex_len):
@@ -1511,12 +1553,12 @@ def run_check(ck, which: str) -> None:  # noqa: C901, PLR0912, PLR0915
         if st and st[-1][which]:
             report([s["op"] for s in st], len(st) - 1, st[-1], st[-1])
     # ---- 4b. rejected edits spanning several graphs: nested sort with one cyclic scope, multi-graph convenience calls
-    n_mg = 360 if not ck.thorough else 3600
+    n_mg = 300 if not ck.thorough else 3000
     for i in range(-len(corpus_oracle_only), n_mg):
         if i < 0:
             ops = corpus_oracle_only[i]
-        gen = (gen_nested_sort, gen_slices, gen_multi_rename, gen_refused_names, gen_multi_rau, gen_slices,
-               gen_nested_sort, gen_slices, gen_multi_rename, gen_refused_names, gen_merge_shapes, gen_slices)[i % 12]
+        gen = (gen_slices, gen_multi_rename, gen_refused_names, gen_multi_rau, gen_slices,
+               gen_slices, gen_multi_rename, gen_refused_names, gen_merge_shapes, gen_slices)[i % 10]
         if i >= 0:
             ops = gen(rng)
         st = run_history(ops)["steps"]
@@ -1657,7 +1699,7 @@ def gen_nested_sort(rng) -> list[list]:
         target = f"b{deep}"
     else:
         target = rng.choice(scopes)
-    b.ops.append(["X_GSort", gids[target]])
+    b.ops.append(["GSort", gids[target], "?"])
     return b.ops
 
 
